@@ -12,7 +12,7 @@
    [serve_allowed r m p] the responses ServeHTTP may give depending on the order in
    which Go iterates its maps, [serve r m p] the first of them. *)
 From Coq Require Import List String Ascii Bool ZArith.
-From GZ Require Import C09.Model C09.Spec C09.Proofs C09.ServerModel C09.ServerProofs C09.Check C09.SpecProofs C09.History.
+From GZ Require Import C09.Model C09.Spec C09.Proofs C09.ServerModel C09.ServerProofs C09.Check C09.SpecProofs C09.History C09.CleanProofs.
 Import ListNotations.
 Open Scope string_scope.
 
@@ -530,3 +530,82 @@ Theorem case_table_up_to_listing_order : forall T nf na m segs a b, response_eqb
   obs_ok T nf na m segs b -> obs_ok T nf na m segs a.
 Proof. exact obs_ok_eqb. Qed.
 Print Assumptions case_table_up_to_listing_order.
+
+(* ====================================================================== round 4: path.Clean and the custom handlers
+   "including paths needing cleaning": what cleaning does, for EVERY path — so that the theorems above, which speak of
+   [clean_path p = Some segs], say something about the path as it was sent.
+   [real s] = the segment is neither empty nor "." nor "..". *)
+
+(* the router looks at a request path, and Handle at a pattern, only through path.Clean *)
+Theorem router_sees_only_the_cleaned_path : forall r m p q, clean_path p = clean_path q ->
+  serve r m p = serve r m q /\ serve_allowed r m p = serve_allowed r m q.
+Proof. exact L_serve_through_clean. Qed.
+Print Assumptions router_sees_only_the_cleaned_path.
+
+Theorem handle_sees_only_the_cleaned_pattern : forall r m p q h, clean_path p = clean_path q ->
+  handle r m p h = handle r m q h.
+Proof. exact L_handle_through_clean. Qed.
+Print Assumptions handle_sees_only_the_cleaned_pattern.
+
+(* the segments searched with are the root [""] or contain no empty, "." or ".." segment *)
+Theorem cleaned_path_is_canonical : forall l,
+  clean_segs l = [""] \/ (clean_segs l <> [] /\ forallb real (clean_segs l) = true).
+Proof. exact L_clean_segs_canonical. Qed.
+Print Assumptions cleaned_path_is_canonical.
+
+Theorem path_clean_idempotent : forall l, clean_segs (clean_segs l) = clean_segs l.
+Proof. exact L_clean_segs_idem. Qed.
+Print Assumptions path_clean_idempotent.
+
+(* a trailing slash changes neither dispatch nor registration (so "/users/7/" is "/users/7", and the pattern
+   "/users/:id/" is the pattern "/users/:id" — registering both is a duplicate) *)
+Theorem trailing_slash_irrelevant : forall r m p h, clean_path p <> None ->
+  serve r m (p ++ "/") = serve r m p /\ handle r m (p ++ "/") h = handle r m p h.
+Proof. exact L_trailing_slash_irrelevant. Qed.
+Print Assumptions trailing_slash_irrelevant.
+
+(* empty segments ("//") and "." segments anywhere in a rooted path change nothing *)
+Theorem empty_segment_irrelevant : forall a b, clean_path a <> None ->
+  clean_path (a ++ "//" ++ b) = clean_path (a ++ "/" ++ b).
+Proof. exact L_clean_double_slash. Qed.
+Print Assumptions empty_segment_irrelevant.
+
+Theorem dot_segment_irrelevant : forall a b, clean_path a <> None ->
+  clean_path (a ++ "/./" ++ b) = clean_path (a ++ "/" ++ b).
+Proof. exact L_clean_dot_segment. Qed.
+Print Assumptions dot_segment_irrelevant.
+
+(* "x/.." cancels for every kept segment x; ".." at the root stays at the root *)
+Theorem dotdot_cancels : forall a s b, real s = true ->
+  clean_segs (a ++ s :: ".." :: b) = clean_segs (a ++ b).
+Proof. exact L_clean_dotdot. Qed.
+Print Assumptions dotdot_cancels.
+
+Theorem dotdot_at_root : forall b, clean_segs (".." :: b) = clean_segs b.
+Proof. exact L_clean_dotdot_root. Qed.
+Print Assumptions dotdot_at_root.
+
+(* SetNotFoundHandler / SetNotAllowedHandler (rest.WithNotFoundHandler / WithNotAllowedHandler) replace the default
+   404 / 405 answers and nothing else: which handler runs and with which variables does not depend on them *)
+Theorem custom_handlers_only_relabel : forall nf na regs m p,
+  serve (router_of nf na regs) m p = relabel nf na (serve (router_of false false regs) m p).
+Proof. exact L_custom_handlers_only_relabel. Qed.
+Print Assumptions custom_handlers_only_relabel.
+
+Theorem custom_handlers_dispatch_same : forall nf na regs m p h ps,
+  serve (router_of nf na regs) m p = RHandler h ps <-> serve (router_of false false regs) m p = RHandler h ps.
+Proof. exact L_custom_handlers_dispatch_same. Qed.
+Print Assumptions custom_handlers_dispatch_same.
+
+(* concrete instances: cleaning in requests and patterns; HEAD is not GET; OPTIONS is an ordinary method of the bare
+   router; a request segment spelled like the pattern's own `:id` is bound like any other segment *)
+Example ex_cleaning :
+  let r := router_of false false [mkReg "GET" "/users/:id/" 0%Z; mkReg "HEAD" "/h" 1%Z; mkReg "OPTIONS" "//o/./x/.." 2%Z] in
+  serve r "GET" "/users//7/" = RHandler 0%Z [("id", "7")] /\
+  serve r "GET" "/a/../users/./:id" = RHandler 0%Z [("id", ":id")] /\
+  serve r "GET" "/h" = RNotAllowed ["HEAD"] /\
+  serve r "HEAD" "/users/7" = RNotAllowed ["GET"] /\
+  serve r "OPTIONS" "/o" = RHandler 2%Z [] /\
+  serve r "GET" "/users/7/.." = RNotFound /\
+  snd (handle r "GET" "/users/:id" 9%Z) = RegDuplicate.
+Proof. vm_compute. repeat split. Qed.
